@@ -36,12 +36,14 @@ META = {
     'rule': ('configurations = pairwise covering array (greedy, seeded) over factors: per mergeable setting the pair (root value, nested value) '
              'in {unset,A,B}^2, root recursive in {unset,True,False}, nested recursive, tags, explicit key maps, presence of a Meta at all, '
              'binding style (inner Meta class / LoadMeta-DumpMeta), CatchAll, probe kind (basic / Union-of-dataclasses field), nesting shape '
-             '(12 fixed + random compositions up to depth 4 incl. intermediate classes with own Meta), per engine (default load, dump, v1 load); '
+             '(12 fixed + random compositions up to depth 4 incl. intermediate classes with own Meta), earlier use of the nested class (none / dumped alone / '
+             'loaded alone / under another root with no, opposite or same Meta, dumped or loaded), document type (dict / OrderedDict / defaultdict / subclass), '
+             'per engine (default load, dump, v1 load); '
              'thorough adds the full product shape x recursive on sampled rows. distinct = distinct configuration JSON; non-trivial = root has a '
              'Meta and at least one observed setting is set on root or nested.'),
     'trusted_base': ['model coq/model/MetaMerge.v: Meta class = association list of its own __dict__ settings; getattr falls back to the '
                      'AbstractMeta defaults table (validated by the correspondence run)'],
-    'assumptions': ['fresh interpreter per configuration (cross-configuration leaks are C07: F10, F11)',
+    'assumptions': ['one interpreter per configuration; earlier uses of the nested class inside it are a generated dimension (history)',
                     'Meta classes are direct subclasses of JSONWizard.Meta or LoadMeta/DumpMeta results (settings live in the class own __dict__); no global (outer) Meta',
                     'Union shape: the nested member carries its own tag and does not set a tag_key different from the one the containing Union reads (C13 domain)',
                     'debug_enabled / v1_debug / recursive_classes / v1_unsafe_parse_dataclass_in_union are merged by the proved algebra but not observed end-to-end'],
